@@ -120,7 +120,7 @@ def uniform_fm(rng, strong=True):
         fm = dict(a=0, b=0, c=rng.randrange(0, 97), d=rng.choice([0, 0, 1, 2]), e=0)
         u, v = node(fm, 0, 0, 0, 0, 0), node(fm, 0, 0, 0, 0, 1)
         big = max(abs(u), abs(v))
-        if (strong and big >= 700) or (not strong and big <= 400):
+        if big >= 700 or not strong:          # (level 0 of frame 0 always flows at 1152 / 744 units: every draw is "strong")
             return fm
 
 
@@ -149,8 +149,8 @@ def directed(rng, kind, **o):
         return base_scenario(rng, nkill=rng.randrange(2, 6), nfreeze=rng.choice([0, 1, 2]), nsteps=rng.randrange(3, 9), ntimes=rng.choice([2, 3]), pvars=True, **o)
     if kind == "scale":      # many particles, many steps, many files: block sizes, counter widths, integer widths
         nsteps = rng.randrange(24, 41)
-        sc = base_scenario(rng, nsteps=nsteps, ntimes=3, nkill=3, nfreeze=0, ops=rng.choice([2, 3]), numrec=rng.choice([1, 2]), pvars=True,
-                           fm=uniform_fm(rng, strong=False), dt=32, nland=rng.choice([0, 2]), **o)
+        sc = base_scenario(rng, nsteps=nsteps, ntimes=3, nkill=3, nfreeze=0, ops=rng.choice([2, 3]), numrec=rng.choice([1, 2]), pvars=True, cont=False,
+                           dt=32, nland=rng.choice([0, 2]), **o)
         for r in sc["rows"]:
             r["mult"] = rng.choice([130, 260, 400])
         npart = sum(r["mult"] for r in sc["rows"])
